@@ -355,6 +355,22 @@ def rule_normal_form(ck: Check, repo: Repo, rid: str = "R9") -> None:
             if isinstance(node, ast.If) and ".strip()" in ast.unparse(node.test) and re.search(r"\bnot\b|== ''|== \"\"", ast.unparse(node.test)) \
                     and any(isinstance(x, ast.Raise) and re.search(r"UsageError|BadParameter", ast.unparse(x)) for x in ast.walk(node)):
                 refusals.append(ast.unparse(node.test)[:80])
+    # ... and a text with a LINE BREAK is written as one tag line plus a stray comment line: it is read back cut, and the
+    # stray line is dropped by the next run
+    breaks = []
+    for f in [an] + pre + [fn]:
+        if f is None:
+            continue
+        for node in ast.walk(f):
+            if isinstance(node, ast.If) and re.search(r"splitlines\(\)|'\\n' in |\"\\n\" in ", ast.unparse(node.test)) \
+                    and any(isinstance(x, ast.Raise) and re.search(r"UsageError|BadParameter", ast.unparse(x)) for x in ast.walk(node)):
+                breaks.append(ast.unparse(node.test)[:80])
+    r.instance("multi-line-values-refused", {"tests": breaks}, q)
+    if not breaks:
+        r.violation(repo.qualname_of(an) if an is not None else q, "a --copyright / --contributor value with a line break is accepted",
+                    "`reuse annotate --contributor $'Ann\\nZed' -l MIT a.py`: writes `# SPDX-FileContributor: Ann` and a bare `# Zed` line; the"
+                    " contributor read back is `Ann`, and the next run drops the `# Zed` line for good (with --copyright: a RuntimeError"
+                    " traceback instead of a usage error)", repo.loc(fn))
     r.instance("blank-values-refused", {"tests": refusals}, q)
     if not refusals:
         r.violation(repo.qualname_of(an) if an is not None else q, "a blank --copyright / --contributor value is accepted",
